@@ -39,10 +39,23 @@ fn check(v: &(Stream, u32), rep: &mut Rep) -> Result<(), String> {
             return Ok(());
         }
     };
-    let msgs: Vec<DltMessage> = DltMessageIterator::new(*start, std::io::Cursor::new(&enc.bytes[..])).collect();
+    let mut msgs: Vec<DltMessage> = DltMessageIterator::new(*start, std::io::Cursor::new(&enc.bytes[..])).collect();
     if msgs.is_empty() {
         rep.label("no_message");
         return Ok(());
+    }
+    // messages whose payload contains a frame marker (DLT data carried inside DLT, transfers of .dlt files): such a
+    // message is as exportable as any other one
+    if *start % 4 == 1 {
+        for (k, m) in msgs.iter_mut().enumerate() {
+            // (not into near-maximum messages: that is the input class of the listed finding F04)
+            if m.payload.len() >= 4 && m.payload.len() < 65_400 && (k as u32 + *start / 4) % 2 == 0 {
+                let p = ((*start as usize / 8) + k * 7) % (m.payload.len() - 3);
+                let marker: &[u8; 4] = if (k + *start as usize / 4) % 3 == 0 { b"DLS\x01" } else { b"DLT\x01" };
+                m.payload[p..p + 4].copy_from_slice(marker);
+                rep.label("frame_marker_in_payload");
+            }
+        }
     }
     let mut concat: Vec<u8> = vec![];
     let mut starts = vec![];
@@ -69,10 +82,7 @@ fn check(v: &(Stream, u32), rep: &mut Rep) -> Result<(), String> {
         concat.extend_from_slice(&b1);
     }
     // export of all messages re-reads to the same sequence in order, and exporting the export is identical
-    if has_marker(&concat, &starts) {
-        rep.label("export_contains_marker_in_header_fields");
-        return Ok(());
-    }
+    rep.label_if(has_marker(&concat, &starts), "export_contains_marker_inside_messages");
     let again: Vec<DltMessage> = DltMessageIterator::new(*start, std::io::Cursor::new(&concat[..])).collect();
     ensure_eq!(again.len(), msgs.len(), "messages in re-read export");
     let mut concat2 = vec![];
@@ -93,7 +103,7 @@ pub fn def(tier: Tier) -> PropertyDef {
         assumptions: vec!["input messages come from the real parser (C01 decides that the parser is faithful)"],
         subs: vec![
             sub("roundtrip_small", tier.pick(300_000, 3_000_000), (stream(20, false, 100), start.clone()), check)
-                .rates(&[("weid_or_wsid", 0.3), ("msbf", 0.3), ("no_timestamp", 0.3), ("timestamp_present_but_zero", 0.05)])
+                .rates(&[("weid_or_wsid", 0.3), ("msbf", 0.3), ("no_timestamp", 0.3), ("timestamp_present_but_zero", 0.05), ("frame_marker_in_payload", 0.1)])
                 .boxed(),
             sub("roundtrip_huge", tier.pick(30_000, 400_000), (stream(6, true, 100), start), check)
                 .rates(&[("payload_gt_60000", 0.05)])
